@@ -104,8 +104,12 @@ def run(ctx):
             'after %s at %s a non-error return is reachable without restoring the position: lines %s' % (bad[0].get('callee'), f.loc(bad[0]), f.cfg.block_lines(bad[1])))
         ctx.ob('WH-RESTORE', name, ok, f.loc(f.body), msg, {'movers': len(movers), 'restores': len(restores)})
 
-    ctx.rule('WH-NOGROW', 'wav/aiff/rf64_write_header: a branch on `has_data && psf->dataoffset != psf->header.indx` returns SFE_INTERNAL, and every assignment psf->dataoffset = psf->header.indx and the write of the header bytes themselves are dominated by it', floor=6)
-    for name in NOGROW:
+    ctx.rule('WH-NOGROW', 'every header writer whose length depends on caller-supplied content (it reads psf->strings / wchunks / cues / instrument / bext / cart / peak_info / channel_map: WAV, AIFF, RF64, CAF): a branch on `has_data && psf->dataoffset != psf->header.indx` returns SFE_INTERNAL, and every assignment psf->dataoffset = psf->header.indx and the write of the header bytes themselves are dominated by it', floor=6)
+    # every header writer whose length depends on what the caller stored (strings, custom chunks, cues, PEAK ...), not a frozen list
+    VAR_FIELDS = ('strings', 'wchunks', 'cues', 'instrument', 'broadcast_16k', 'cart_16k', 'peak_info', 'channel_map')
+    nogrow = sorted(n_ for n_, f_ in wh.items() if any(x['k'] == 'MemberExpr' and x.get('rec') == 'sf_private_tag' and x['n'] in VAR_FIELDS for x in f_.walk()))
+    ctx.require(set(NOGROW) <= set(nogrow), 'variable-length header writers found: %s' % nogrow)
+    for name in nogrow:
         f = wh.get(name) or prog.fn(name)
         guards_ = [b for b in f.cfg.blocks.values() if 'cond' in b and 'psf->dataoffset != psf->header.indx' in f.s(b['cond'])]
         hd = [b for b in f.cfg.blocks.values() if 'cond' in b and f.s(b['cond']) == 'has_data']
@@ -114,6 +118,22 @@ def run(ctx):
         rets = [f.s(x) for x in f.walk() if x['k'] == 'ReturnStmt' and x['kids'] and 'SFE_INTERNAL' in f.s(x['kids'][0])]
         ok = ok and bool(rets)
         ctx.ob('WH-NOGROW', name, ok, f.loc(f.body), 'no-grow guard %s' % ('present and dominates the dataoffset update' if ok else 'MISSING or bypassed'), None)
+        # a header that got SHORTER (a string replaced after the audio) must be made up for, otherwise the guard above refuses the final header
+        # update and the file keeps the frame count of the first header (0): a zero fill sized from dataoffset - header.indx precedes the data marker
+        from engine.util import local_defs as _ld11
+        padvars = {nm_ for nm_, ds_ in _ld11(f).items() if any(d_ is not None and 'psf->dataoffset' in f.s(d_) and 'psf->header.indx' in f.s(d_) for d_ in ds_)}
+        pads = []
+        for c_ in f.calls('psf_binheader_writef'):
+            fm_ = f.unwrap(f.args(c_)[1]).get('s') or ''
+            if 'z' not in fm_:
+                continue
+            for a_ in f.args(c_)[2:]:
+                as_ = f.s(a_)
+                if ('psf->dataoffset' in as_ and 'psf->header.indx' in as_) or any(x['k'] == 'DeclRefExpr' and x.get('n') in padvars for x in f.walk(f.unwrap(a_))):
+                    pads.append(c_)
+        ctx.ob('WH-NOGROW', name + ':pad', bool(pads), f.loc(pads[0]) if pads else f.loc(f.body), 'a shorter header is filled up to the data offset (zero fill sized from psf->dataoffset - psf->header.indx)' if pads else
+               'no fill construct sized from psf->dataoffset - psf->header.indx: when the header gets shorter after audio was written (a string replaced by a shorter one) the last header update is '
+               'refused and the finished file keeps the frame count of its first header', None)
         # the guard must come BEFORE the header bytes are written: a header of another length written first has already destroyed audio
         hw = [c for c in f.calls('psf_fwrite') if f.s(f.unwrap(f.args(c)[0])) == 'psf->header.ptr']
         okw = bool(hw) and bool(guards_) and all(any(f.cfg.dominates((g['id'], len(g['elems'])), c) for g in guards_ + hd) for c in hw)
